@@ -184,7 +184,7 @@ fn op_cli(req: &J) -> J {
         }
     }
     let _ = std::fs::remove_dir_all(&dir);
-    let strip = |s: String| s.replace(&dir, "{DIR}");
+    let strip = |s: String| s.replace(&dir, "{DIR}").replace(dir.trim_start_matches('/'), "{DIR}");
     json!({"result": result, "stdout": strip(stdout), "stderr": strip(stderr), "read": extra})
 }
 
